@@ -18,7 +18,7 @@ ASSUMPTIONS = {
     'A4': 'A4 heapless 0.7 / heapless-bytes 0.3 / serde_bytes Deserialize impls accept <= N, reject > N and copy verbatim (assumed)',
     'A5': 'A5 #[cfg] on a field is evaluated before any derive macro sees the field list (rustc)',
     'A6': 'A6 cbor-smol ser.rs emits shortest-form heads and each serde call appends exactly its item (checked for scalars by Kani harnesses; otherwise assumed)',
-    'A7': 'A7 cosey 0.3 emits COSE key members in the order 1, 3, -1, -2, -3 — CHECKED on the pinned cosey source (obligations cosey__RawPublicKey__*); that the other COSE key types delegate to RawPublicKey is assumed',
+    'A7': 'A7 cosey 0.3 emits COSE key members in the order 1, 3, -1, -2, -3 — CHECKED on the pinned cosey source (obligations cosey__RawPublicKey__*), and that P256 / EcdhEsHkdf256 / Ed25519 / Totp keys and the untagged union PublicKey serialise through RawPublicKey (derived Serialize + serde(into), no hand-written impl; obligations cosey__*__serialises_through_RawPublicKey)',
     'A8': 'A8 cbor-smol de.rs + serde-generated visitors: no panic, terminate, error taxonomy — partly CHECKED: the generated decoders raise missing_field exactly for required members (Engine X), cbor-smol maps missing_field to SerdeMissingField and every other serde error to SerdeDeCustom and never constructs SerdeMissingField in de.rs (obligations cbor_smol__*), the item skipper is proved (unit c06_cbor_skipper); the rest of de.rs (primitive readers, map/seq access) is assumed; cbor_deserialize is an uninterpreted function in the Verus units',
     'A9': 'A9 cbor-smol ignore() consumes exactly one well-formed definite-length item of any shape and nesting, terminates, never panics — PROVED by Verus on the pinned dependency source (unit c06_cbor_skipper); the one method left external (raw_deserialize_u32, the length-head reader) is validated by the Kani harness dep_k_length_heads',
     'A10': 'A10 parametricity: a generic default method can interact with Self only through the trait methods',
